@@ -32,8 +32,6 @@ Local Notation inv := (inv K V lower).
 Local Notation same_kind := (same_kind K V).
 Local Notation cls_ok := (cls_ok K V).
 Local Notation lookup_spec := (lookup_spec K V keqb lower).
-Local Notation op_ok := (op_ok K V keqb lower).
-Local Notation ops_ok := (ops_ok K V keqb lower).
 
 Lemma keqb_refl k : keqb k k = true.
 Proof. destruct (keqb_spec k k); congruence. Qed.
@@ -327,25 +325,13 @@ Proof.
 Qed.
 
 (* ------------------------------------------------------------------ constructor and lower() *)
-Lemma init_fold : forall (l : list (K * V)) d ks, lock d ks -> sinv (zip3 d ks) ->
-  let d' := fold_left (fun a p => aset (fst p) (snd p) a) (map (fun p => (lower (fst p), snd p)) l) d in
-  let ks' := fold_left (fun a p => aset (fst p) (snd p) a) (map (fun p => (lower (fst p), fst p)) l) ks in
-  lock d' ks' /\ zip3 d' ks' = sm_update K V keqb lower (zip3 d ks) l /\ sinv (zip3 d' ks').
-Proof.
-  induction l as [|[k v] l IH]; intros d ks L S; cbn.
-  - auto.
-  - destruct (zip3_set d ks (lower k) k v L) as [L' Z].
-    assert (S' : sinv (zip3 (aset (lower k) v d) (aset (lower k) k ks))) by (rewrite Z; apply sput_inv; auto).
-    destruct (IH _ _ L' S') as (L'' & Z' & S''). cbn in *.
-    split; [exact L''|]. split; [|exact S'']. rewrite Z'. unfold sm_update. cbn. unfold sm_set at 2. rewrite Z. reflexivity.
-Qed.
+Lemma empty_inv cl f : inv (mkcid K V cl [] [] f).
+Proof. split; [reflexivity | split; constructor]. Qed.
 Lemma init_abs cl pairs :
-  abs (ci_init K V keqb lower cl pairs) = sm_update K V keqb lower [] (pydict pairs) /\
+  abs (ci_init K V keqb lower cl pairs) = sm_update K V keqb lower [] pairs /\
   inv (ci_init K V keqb lower cl pairs).
 Proof.
-  unfold ci_init, abs, inv, py_dict at 1 2. cbn.
-  destruct (init_fold (pydict pairs) [] []) as (L & Z & S); [reflexivity | split; constructor|].
-  cbn in *. split; [exact Z|]. split; [exact L | exact S].
+  unfold ci_init. destruct (update_abs pairs _ (empty_inv cl FacNone)) as (A & I & _). split; [exact A | exact I].
 Qed.
 
 Lemma sput_fresh kl sp v m : sfind kl m = None -> sput kl sp v m = m ++ [(kl, (sp, v))].
@@ -365,10 +351,10 @@ Proof.
   - apply sfind_none_notin. cbn in ND. apply NoDup_remove_2 in ND. intros I. apply ND. apply in_or_app. left. exact I.
 Qed.
 
-Lemma lower_abs c : inv c -> cls_ok c None ->
-  exists c', ci_lower K V keqb lower c = EOk c' /\ abs c' = sm_lower K V (abs c) /\ inv c' /\ cls_ok c' None.
+Lemma lower_abs c dflt : inv c -> cls_ok c dflt ->
+  exists c', ci_lower K V keqb lower c = EOk c' /\ abs c' = sm_lower K V (abs c) /\ inv c' /\ cls_ok c' dflt.
 Proof.
-  intros I C. unfold ci_lower, ci_items_lower. rewrite (items_abs c None I C). cbn.
+  intros I C. unfold ci_lower, ci_items_lower. rewrite (items_abs c dflt I C). cbn.
   set (L1 := map (fun p : K * V => (lower (fst p), snd p)) (sm_items K V (abs c))).
   assert (HF : Forall (fun e => lower (fst (snd e)) = fst e) (abs c)) by apply I.
   assert (Hfst : map fst L1 = map fst (abs c)).
@@ -378,28 +364,32 @@ Proof.
   assert (FL : Forall (fun p : K * V => lower (fst p) = fst p) L1).
   { unfold L1, sm_items. rewrite map_map. apply Forall_forall. intros p Hp. apply in_map_iff in Hp.
     destruct Hp as (e & <- & _). cbn. apply lower_idem. }
-  assert (R : forall cl, abs (ci_init K V keqb lower cl L1) = sm_lower K V (abs c)).
-  { intros cl. destruct (init_abs cl L1) as [A _]. rewrite A. rewrite (pydict_nodup L1 ND).
-    rewrite supdate_fresh; [| cbn; exact ND | exact FL]. cbn.
+  assert (R : forall cl f, abs (ci_update K V keqb lower (mkcid K V cl [] [] f) L1) = sm_lower K V (abs c) /\
+                           inv (ci_update K V keqb lower (mkcid K V cl [] [] f) L1) /\
+                           same_kind (mkcid K V cl [] [] f) (ci_update K V keqb lower (mkcid K V cl [] [] f) L1)).
+  { intros cl f. destruct (update_abs L1 _ (empty_inv cl f)) as (A & I' & SK). split; [|split; assumption].
+    rewrite A. cbn. rewrite supdate_fresh; [| cbn; exact ND | exact FL]. cbn.
     unfold L1, sm_items, sm_lower. rewrite !map_map. cbn. clear - HF.
     induction HF as [|e m He F IH]; cbn; [reflexivity|]. rewrite He, IH. reflexivity. }
   unfold cls_ok in C.
-  destruct (c_cls K V c) eqn:EC; try contradiction.
-  - exists (ci_init K V keqb lower ClsPlain L1). split; [reflexivity|]. split; [apply R|].
-    split; [apply init_abs | reflexivity].
-  - exists (ci_init K V keqb lower ClsOrdered L1). split; [reflexivity|]. split; [apply R|].
-    split; [apply init_abs | reflexivity].
+  destruct (c_cls K V c) eqn:EC.
+  - destruct (R ClsPlain FacNone) as (A & I' & _). eexists. split; [reflexivity|]. split; [exact A|]. split; [exact I'|].
+    subst dflt. apply (cls_ok_same (mkcid K V ClsPlain [] [] FacNone)); [apply R | reflexivity].
+  - destruct (R ClsOrdered FacNone) as (A & I' & _). eexists. split; [reflexivity|]. split; [exact A|]. split; [exact I'|].
+    subst dflt. apply (cls_ok_same (mkcid K V ClsOrdered [] [] FacNone)); [apply R | reflexivity].
+  - destruct (R ClsDefault (c_fac K V c)) as (A & I' & _). eexists. split; [reflexivity|]. split; [exact A|]. split; [exact I'|].
+    apply (cls_ok_same (mkcid K V ClsDefault [] [] (c_fac K V c))); [apply R|]. unfold CIRel.cls_ok. cbn. exact C.
 Qed.
 
 (* ------------------------------------------------------------------ one step, observations, histories *)
 Local Notation step := (step K V keqb lower).
 Local Notation spec_step := (spec_step K V keqb lower).
 
-Theorem step_refines c o dflt : inv c -> cls_ok c dflt -> op_ok dflt (abs c) o = true ->
+Theorem step_refines c o dflt : inv c -> cls_ok c dflt ->
   spec_step dflt (abs c) o = (abs (fst (step c o)), snd (step c o)) /\
   inv (fst (step c o)) /\ cls_ok (fst (step c o)) dflt.
 Proof.
-  intros I C OK. destruct o as [k v|k|k|k|k d|k d| |k d|kvs| |]; cbn [step spec_step CIDict.step CIMap.spec_step fst snd].
+  intros I C. destruct o as [k v|k|k|k|k d|k d| |k d|kvs| |]; cbn [step spec_step CIDict.step CIMap.spec_step fst snd].
   - (* setitem *) destruct (setitem_abs c k v I) as (A & I' & SK). rewrite A.
     split; [reflexivity|]. split; [exact I' | exact (cls_ok_same _ _ _ SK C)].
   - (* getitem *) cbn. rewrite (getitem_abs c k dflt I C). unfold lookup_spec, ret_val.
@@ -408,35 +398,66 @@ Proof.
     split; [|split; [exact I' | exact (cls_ok_same _ _ _ SK C)]]. destruct (shas (abs c) k); reflexivity.
   - (* contains *) cbn. rewrite (contains_abs c k I). split; [reflexivity | split; assumption].
   - (* get *) cbn. unfold ci_get. rewrite (getitem_abs c k dflt I C). unfold lookup_spec.
-    split; [|split; assumption]. unfold op_ok in OK. rewrite shas_sget in OK.
-    destruct (sget (abs c) k); [reflexivity|]. destruct dflt; [discriminate | reflexivity].
-  - (* pop *) unfold ci_pop. rewrite (getitem_abs c k dflt I C). unfold lookup_spec.
-    destruct (delitem_abs c k I) as (c' & D & A & I' & SK). rewrite shas_sget in D, A.
-    unfold op_ok in OK. rewrite shas_sget in OK.
-    destruct (sget (abs c) k) as [v|] eqn:G.
-    + rewrite D. cbn. rewrite A. split; [reflexivity|]. split; [exact I' | exact (cls_ok_same _ _ _ SK C)].
-    + destruct dflt as [d0|].
-      * destruct d as [x|]; [discriminate|]. rewrite D. cbn. rewrite A. split; [reflexivity|].
-        split; [exact I' | exact (cls_ok_same _ _ _ SK C)].
-      * cbn. split; [|split; assumption]. destruct d; reflexivity.
+    split; [|split; assumption].
+    destruct (sget (abs c) k); [reflexivity|]. destruct dflt; reflexivity.
+  - (* pop *)
+    assert (BP : forall d', (dflt = None \/ d' = None \/ shas (abs c) k = true) ->
+              spec_step dflt (abs c) (OPop k d') =
+                (abs (fst (base_pop K V keqb lower c k d')), ret_val K V (snd (base_pop K V keqb lower c k d'))) /\
+              inv (fst (base_pop K V keqb lower c k d')) /\ cls_ok (fst (base_pop K V keqb lower c k d')) dflt).
+    { intros d' Hd. cbn [spec_step CIMap.spec_step]. unfold base_pop. rewrite (getitem_abs c k dflt I C). unfold lookup_spec.
+      destruct (delitem_abs c k I) as (c' & D & A & I' & SK). rewrite shas_sget in D, A. rewrite shas_sget in Hd.
+      destruct (sget (abs c) k) as [v|] eqn:G.
+      + rewrite D. cbn. rewrite A. split; [reflexivity|]. split; [exact I' | exact (cls_ok_same _ _ _ SK C)].
+      + destruct dflt as [d0|].
+        * destruct Hd as [Hd|[->|Hd]]; try discriminate. rewrite D. cbn. rewrite A. split; [reflexivity|].
+          split; [exact I' | exact (cls_ok_same _ _ _ SK C)].
+        * cbn. split; [|split; assumption]. destruct d'; reflexivity. }
+    assert (E : (let (c', r) := ci_pop K V keqb lower c k d in (c', ret_val K V r)) =
+                (fst (ci_pop K V keqb lower c k d), ret_val K V (snd (ci_pop K V keqb lower c k d)))).
+    { destruct (ci_pop K V keqb lower c k d). reflexivity. }
+    rewrite E. cbn [fst snd]. unfold ci_pop. unfold CIRel.cls_ok in C.
+    destruct (c_cls K V c) eqn:EC.
+    + subst dflt. exact (BP d (or_introl eq_refl)).
+    + subst dflt. exact (BP d (or_introl eq_refl)).
+    + destruct dflt as [d0|]; [|contradiction]. destruct d as [dv|]; [|exact (BP None (or_intror (or_introl eq_refl)))].
+      rewrite (contains_abs c k I). destruct (shas (abs c) k) eqn:H.
+      * destruct (BP None) as (B1 & B2 & B3); [auto|]. split; [|split; [exact B2 | unfold CIRel.cls_ok; exact B3]].
+        rewrite <- B1. cbn. rewrite shas_sget in H. destruct (sget (abs c) k); [reflexivity | discriminate].
+      * cbn. split; [|split; [exact I | unfold CIRel.cls_ok; rewrite EC; exact C]].
+        rewrite shas_sget in H. destruct (sget (abs c) k); [discriminate | reflexivity].
   - (* popitem *) destruct (popitem_abs c dflt I C) as (c' & I' & SK & H).
     destruct (abs c) as [|[kl [sp v]] r] eqn:E.
     + destruct H as [-> ->]. cbn. rewrite E. split; [reflexivity | split; assumption].
     + destruct H as [-> A]. cbn. rewrite A. split; [reflexivity|]. split; [exact I' | exact (cls_ok_same _ _ _ SK C)].
-  - (* setdefault *) unfold ci_setdefault. rewrite (getitem_abs c k dflt I C). unfold lookup_spec.
-    unfold op_ok in OK. rewrite shas_sget in OK.
+  - (* setdefault *)
+    assert (E : (let (c', r) := ci_setdefault K V keqb lower c k d in (c', ret_val K V r)) =
+                (fst (ci_setdefault K V keqb lower c k d), ret_val K V (snd (ci_setdefault K V keqb lower c k d)))).
+    { destruct (ci_setdefault K V keqb lower c k d). reflexivity. }
+    rewrite E. cbn [fst snd]. clear E.
+    destruct (setitem_abs c k d I) as (A & I' & SK).
+    assert (BS : dflt = None ->
+              (match sget (abs c) k with Some v => (abs c, EOk (RVal v)) | None => (sset (abs c) k d, EOk (RVal d)) end) =
+                (abs (fst (base_setdefault K V keqb lower c k d)), ret_val K V (snd (base_setdefault K V keqb lower c k d))) /\
+              inv (fst (base_setdefault K V keqb lower c k d)) /\ cls_ok (fst (base_setdefault K V keqb lower c k d)) dflt).
+    { intros ->. unfold base_setdefault. rewrite (getitem_abs c k None I C). unfold lookup_spec.
+      destruct (sget (abs c) k) as [v|] eqn:G.
+      + cbn. split; [reflexivity | split; assumption].
+      + cbn [fst snd]. rewrite A. split; [reflexivity|]. split; [exact I' | exact (cls_ok_same _ _ _ SK C)]. }
+    unfold ci_setdefault. pose proof C as C0. unfold CIRel.cls_ok in C0.
+    destruct (c_cls K V c) eqn:EC; [apply BS; exact C0 | apply BS; exact C0 |].
+    rewrite (contains_abs c k I), shas_sget. cbn [fst snd].
     destruct (sget (abs c) k) as [v|] eqn:G.
-    + cbn. split; [reflexivity | split; assumption].
-    + destruct dflt; [discriminate|]. cbn [fst snd]. destruct (setitem_abs c k d I) as (A & I' & SK). rewrite A.
-      split; [reflexivity|]. split; [exact I' | exact (cls_ok_same _ _ _ SK C)].
+    + rewrite (getitem_abs c k dflt I C). unfold lookup_spec. rewrite G. cbn. split; [reflexivity | split; assumption].
+    + pose proof (cls_ok_same _ _ _ SK C) as C'. rewrite (getitem_abs _ k dflt I' C'). unfold lookup_spec, sm_get.
+      rewrite A. unfold sm_set. rewrite sput_find, keqb_refl. cbn. split; [reflexivity | split; assumption].
   - (* update *) destruct (update_abs kvs c I) as (A & I' & SK). rewrite A.
     split; [reflexivity|]. split; [exact I' | exact (cls_ok_same _ _ _ SK C)].
   - (* clear *) unfold ci_clear.
     destruct (clear_abs dflt (S (length (c_keys K V c))) c I C) as (c' & R & A & I' & SK).
     { destruct I as [L _]. unfold abs. destruct (zip3_length _ _ L) as [H1 H2]. rewrite H1, H2. lia. }
     rewrite R. cbn. rewrite A. split; [reflexivity|]. split; [exact I' | exact (cls_ok_same _ _ _ SK C)].
-  - (* lower *) destruct dflt; [discriminate|].
-    destruct (lower_abs c I C) as (c' & R & A & I' & C'). rewrite R. cbn. rewrite A. auto.
+  - (* lower *) destruct (lower_abs c dflt I C) as (c' & R & A & I' & C'). rewrite R. cbn. rewrite A. auto.
 Qed.
 
 Local Notation observe := (observe K V keqb lower).
@@ -450,21 +471,17 @@ Proof.
   - apply map_ext. intros p. apply (getitem_abs c p dflt I C).
 Qed.
 
-Lemma ops_ok_none m ops : ops_ok None m ops = true.
-Proof. revert m. induction ops as [|o r IH]; intros m; cbn; auto. Qed.
-
-Theorem run_refines_gen dflt probes : forall ops c, inv c -> cls_ok c dflt -> ops_ok dflt (abs c) ops = true ->
+Theorem run_refines_gen dflt probes : forall ops c, inv c -> cls_ok c dflt ->
   run K V keqb lower probes c ops = spec_run K V keqb lower dflt probes (abs c) ops /\
   abs (run_state K V keqb lower c ops) = spec_state K V keqb lower dflt (abs c) ops /\
   inv (run_state K V keqb lower c ops).
 Proof.
-  induction ops as [|o r IH]; intros c I C OK; cbn [run spec_run run_state spec_state ops_ok] in *.
+  induction ops as [|o r IH]; intros c I C; cbn [run spec_run run_state spec_state] in *.
   - auto.
-  - apply andb_true_iff in OK. destruct OK as [OK1 OK2].
-    destruct (step_refines c o dflt I C OK1) as (E & I' & C').
+  - destruct (step_refines c o dflt I C) as (E & I' & C').
     rewrite E in *. cbn [fst snd] in *.
     destruct (step c o) as [c' x] eqn:ES. cbn [fst snd] in *.
-    destruct (IH c' I' C' OK2) as (R1 & R2 & R3).
+    destruct (IH c' I' C') as (R1 & R2 & R3).
     rewrite R1, (observe_abs c' dflt probes I' C'). auto.
 Qed.
 
@@ -486,17 +503,26 @@ Proof.
   intros I. destruct o as [k v|k|k|k|k d|k d| |k d|kvs| |]; cbn [step CIDict.step fst snd]; try exact I.
   - apply setitem_abs. exact I.
   - destruct (delitem_abs c k I) as (c' & D & _ & I' & _). rewrite D. exact I'.
-  - unfold ci_pop. destruct (delitem_abs c k I) as (c' & D & _ & I' & _).
-    destruct (getitem c k) as [v|[|]]; [rewrite D; destruct (shas (abs c) k); exact I' | exact I | exact I].
+  - assert (BP : forall d', inv (fst (base_pop K V keqb lower c k d'))).
+    { intros d'. unfold base_pop. destruct (delitem_abs c k I) as (c' & D & _ & I' & _).
+      destruct (getitem c k) as [v|[|]]; [rewrite D; destruct (shas (abs c) k); exact I' | exact I | exact I]. }
+    assert (E : fst (let (c', r) := ci_pop K V keqb lower c k d in (c', ret_val K V r)) = fst (ci_pop K V keqb lower c k d))
+      by (destruct (ci_pop K V keqb lower c k d); reflexivity).
+    rewrite E. unfold ci_pop. destruct (c_cls K V c); try apply BP.
+    destruct d; [|apply BP]. destruct (contains c k); [apply BP | exact I].
   - pose proof (popitem_inv c I) as P. destruct (ci_popitem K V keqb lower c). exact P.
-  - unfold ci_setdefault. destruct (getitem c k) as [v|[|]]; [exact I | apply setitem_abs; exact I | exact I].
+  - assert (E : fst (let (c', r) := ci_setdefault K V keqb lower c k d in (c', ret_val K V r)) = fst (ci_setdefault K V keqb lower c k d))
+      by (destruct (ci_setdefault K V keqb lower c k d); reflexivity).
+    rewrite E. unfold ci_setdefault, base_setdefault.
+    destruct (c_cls K V c); try (destruct (getitem c k) as [v|[|]]; [exact I | apply setitem_abs; exact I | exact I]).
+    cbn. destruct (contains c k); [exact I | apply setitem_abs; exact I].
   - apply update_abs. exact I.
   - unfold ci_clear. pose proof (clear_inv (S (length (c_keys K V c))) c I) as P.
     destruct (clear_loop K V keqb lower (S (length (c_keys K V c))) c). exact P.
   - unfold ci_lower. destruct (c_cls K V c).
     + destruct (ci_items_lower K V keqb lower c); cbn; [apply init_abs | exact I].
     + destruct (ci_items_lower K V keqb lower c); cbn; [apply init_abs | exact I].
-    + cbn. split; [reflexivity | split; constructor].
+    + destruct (ci_items_lower K V keqb lower c); cbn; [apply update_abs; apply empty_inv | exact I].
 Qed.
 
 Lemma zip3_forall d ks : lock d ks ->
@@ -516,7 +542,7 @@ Lemma reachable_inv c : reachable K V keqb lower c -> inv c.
 Proof.
   induction 1 as [cl pairs _|d0|c o _ IH].
   - apply init_abs.
-  - split; [reflexivity | split; constructor].
+  - apply empty_inv.
   - apply step_inv. exact IH.
 Qed.
 (* THE INVARIANT: in every state reachable through the public protocol (any class, any operations,
@@ -527,22 +553,23 @@ Proof. intros R. apply inv_lockstep, reachable_inv, R. Qed.
 (* ------------------------------------------------------------------ refinement of whole histories *)
 Theorem run_refines cl pairs probes ops : cl <> ClsDefault ->
   run K V keqb lower probes (ci_init K V keqb lower cl pairs) ops =
-  spec_run K V keqb lower None probes (sm_update K V keqb lower [] (pydict pairs)) ops.
+  spec_run K V keqb lower None probes (sm_update K V keqb lower [] pairs) ops.
 Proof.
   intros N. destruct (init_abs cl pairs) as [A I]. rewrite <- A.
-  apply run_refines_gen; [exact I | | apply ops_ok_none].
-  unfold CIRel.cls_ok, ci_init. cbn. destruct cl; congruence.
+  apply run_refines_gen; [exact I |].
+  destruct (update_abs pairs _ (empty_inv cl FacNone)) as (_ & _ & SK).
+  apply (cls_ok_same _ _ _ SK). unfold CIRel.cls_ok. cbn. destruct cl; congruence.
 Qed.
-(* the constructor is a sequence of insertions when no key is repeated with the same spelling *)
-Theorem init_refines_partial cl pairs : NoDup (map fst pairs) ->
-  abs (ci_init K V keqb lower cl pairs) = sm_update K V keqb lower [] pairs.
-Proof. intros ND. destruct (init_abs cl pairs) as [A _]. rewrite A, pydict_nodup; auto. Qed.
-Theorem default_run_refines_partial d0 probes ops : ops_ok (Some d0) [] ops = true ->
+(* the constructor is the sequence of insertions of its pairs *)
+Theorem init_refines cl pairs : abs (ci_init K V keqb lower cl pairs) = sm_update K V keqb lower [] pairs.
+Proof. apply init_abs. Qed.
+(* the defaulting variant: every history refines the reference map with default d0 *)
+Theorem default_run_refines d0 probes ops :
   run K V keqb lower probes (default_init K V (FacVal d0)) ops =
   spec_run K V keqb lower (Some d0) probes [] ops.
 Proof.
-  intros OK. apply (run_refines_gen (Some d0) probes ops (default_init K V (FacVal d0))); auto.
-  - split; [reflexivity | split; constructor].
+  apply (run_refines_gen (Some d0) probes ops (default_init K V (FacVal d0))).
+  - apply empty_inv.
   - reflexivity.
 Qed.
 
@@ -653,44 +680,46 @@ Proof.
   intros I C H. cbn. rewrite (getitem_abs c k (Some d0) I C). rewrite (contains_abs c k I), shas_sget in H.
   unfold CIRel.lookup_spec. destruct (sget (abs c) k); [discriminate | reflexivity].
 Qed.
-(* ... and so do its get and setdefault (the reading of the property text the check accepts) *)
-Theorem default_get_setdefault_no_insert c k d d0 : inv c -> cls_ok c (Some d0) -> contains c k = false ->
-  step c (OGetD k d) = (c, EOk (RVal d0)) /\ step c (OSetdefault k d0) = (c, EOk (RVal d0)) /\
-  forall x, step c (OSetdefault k x) = (c, EOk (RVal d0)).
+(* ... and so does its get(k, d): it yields the factory's default, not d, and does not insert *)
+Theorem default_get_no_insert c k d d0 : inv c -> cls_ok c (Some d0) -> contains c k = false ->
+  step c (OGetD k d) = (c, EOk (RVal d0)).
 Proof.
-  intros I C H. cbn. unfold ci_get, ci_setdefault. rewrite (getitem_abs c k (Some d0) I C).
+  intros I C H. cbn. unfold ci_get. rewrite (getitem_abs c k (Some d0) I C).
   rewrite (contains_abs c k I), shas_sget in H.
   unfold CIRel.lookup_spec. destruct (sget (abs c) k); [discriminate | auto].
 Qed.
-(* C13-F2 in general: in the defaulting variant pop of an absent key raises KeyError even when a default is given *)
-Theorem default_pop_absent_raises c k d d0 : inv c -> cls_ok c (Some d0) -> contains c k = false ->
-  step c (OPop k d) = (c, EExn KeyError).
+(* ... while setdefault(k, x) inserts x and returns it, in every class *)
+Theorem setdefault_absent_inserts c k x dflt : inv c -> cls_ok c dflt -> contains c k = false ->
+  step c (OSetdefault k x) = (setitem c k x, EOk (RVal x)).
 Proof.
-  intros I C H. cbn. unfold ci_pop. rewrite (getitem_abs c k (Some d0) I C).
-  assert (D : delitem c k = (c, EExn KeyError)).
-  { unfold ci_contains in H. unfold ci_delitem, al_del. rewrite H. reflexivity. }
-  rewrite D. rewrite (contains_abs c k I), shas_sget in H.
-  unfold CIRel.lookup_spec. destruct (sget (abs c) k); [discriminate | reflexivity].
+  intros I C H. destruct (step_refines c (OSetdefault k x) dflt I C) as (E & _).
+  cbn [spec_step CIMap.spec_step] in E. rewrite (contains_abs c k I), shas_sget in H.
+  destruct (sget (abs c) k) eqn:G; [discriminate|].
+  destruct (step c (OSetdefault k x)) as [c' r] eqn:ES. cbn [fst snd] in E. injection E as E1 E2. rewrite <- E2. f_equal.
+  cbn in ES. unfold ci_setdefault, base_setdefault in ES. rewrite (getitem_abs c k dflt I C) in ES.
+  unfold CIRel.lookup_spec in ES. rewrite G in ES.
+  rewrite (contains_abs c k I), shas_sget, G in ES.
+  unfold CIRel.cls_ok in C. destruct (c_cls K V c); destruct dflt; try discriminate; try contradiction; cbn in ES; congruence.
 Qed.
 
 (* lower() lower-cases the spellings and nothing else: same keys, same order, same values, same lookups *)
-Theorem lower_lowers_keys_only c : inv c -> cls_ok c None ->
+Theorem lower_lowers_keys_only c dflt : inv c -> cls_ok c dflt ->
   exists c' its, step c OLower = (c', EOk RNone) /\ ci_items K V keqb lower c = EOk its /\
     ci_items K V keqb lower c' = EOk (map (fun p => (lower (fst p), snd p)) its) /\
     ci_len K V c' = ci_len K V c /\
     (forall k, getitem c' k = getitem c k /\ contains c' k = contains c k) /\
-    inv c' /\ cls_ok c' None.
+    inv c' /\ cls_ok c' dflt.
 Proof.
-  intros I C. destruct (lower_abs c I C) as (c' & R & A & I' & C').
+  intros I C. destruct (lower_abs c dflt I C) as (c' & R & A & I' & C').
   exists c', (sm_items K V (abs c)). cbn [step CIDict.step]. rewrite R.
-  split; [reflexivity|]. split; [apply (items_abs c None I C)|].
-  rewrite (items_abs c' None I' C'), A, (len_abs c' I'), (len_abs c I), A.
+  split; [reflexivity|]. split; [apply (items_abs c dflt I C)|].
+  rewrite (items_abs c' dflt I' C'), A, (len_abs c' I'), (len_abs c I), A.
   destruct I as [L [ND F]].
   split; [|split; [|split; [|split; assumption]]].
   - f_equal. unfold sm_items, sm_lower. rewrite !map_map. cbn. clear - F.
     induction F as [|e m He F IH]; cbn; [reflexivity|]. rewrite He, IH. reflexivity.
   - unfold sm_len, sm_lower. apply map_length.
-  - intros k. rewrite (getitem_abs c' k None I' C'), (getitem_abs c k None (conj L (conj ND F)) C).
+  - intros k. rewrite (getitem_abs c' k dflt I' C'), (getitem_abs c k dflt (conj L (conj ND F)) C).
     rewrite (contains_abs c' k I'), (contains_abs c k (conj L (conj ND F))), A.
     unfold CIRel.lookup_spec, sm_get, sm_has.
     assert (H : forall kl, sfind kl (sm_lower K V (abs c)) = option_map (fun e => (kl, snd e)) (sfind kl (abs c))).
@@ -723,69 +752,34 @@ Theorem delete_exactly_that_key_r c k dflt : reachable K V keqb lower c -> cls_o
     ci_iter K V c' = filter (fun sp => negb (keqb (lower k) (lower sp))) (ci_iter K V c) /\
     (forall k', lower k' <> lower k -> getitem c' k' = getitem c k' /\ contains c' k' = contains c k').
 Proof. intros R. apply delete_exactly_that_key. apply reachable_inv, R. Qed.
-Theorem lower_lowers_keys_only_r c : reachable K V keqb lower c -> cls_ok c None ->
+Theorem lower_lowers_keys_only_r c dflt : reachable K V keqb lower c -> cls_ok c dflt ->
   exists c' its, step c OLower = (c', EOk RNone) /\ ci_items K V keqb lower c = EOk its /\
     ci_items K V keqb lower c' = EOk (map (fun p => (lower (fst p), snd p)) its) /\
     ci_len K V c' = ci_len K V c /\
     (forall k, getitem c' k = getitem c k /\ contains c' k = contains c k).
 Proof.
-  intros R C. destruct (lower_lowers_keys_only c (reachable_inv c R) C) as (c' & its & H1 & H2 & H3 & H4 & H5 & _).
+  intros R C. destruct (lower_lowers_keys_only c dflt (reachable_inv c R) C) as (c' & its & H1 & H2 & H3 & H4 & H5 & _).
   exists c', its. auto.
 Qed.
 Theorem default_no_insert_r c k d0 : reachable K V keqb lower c -> cls_ok c (Some d0) -> contains c k = false ->
   step c (OGet k) = (c, EOk (RVal d0)).
 Proof. intros R. apply default_no_insert. apply reachable_inv, R. Qed.
-Theorem default_get_setdefault_no_insert_r c k d d0 : reachable K V keqb lower c -> cls_ok c (Some d0) -> contains c k = false ->
-  step c (OGetD k d) = (c, EOk (RVal d0)) /\ forall x, step c (OSetdefault k x) = (c, EOk (RVal d0)).
-Proof. intros R C H. destruct (default_get_setdefault_no_insert c k d d0 (reachable_inv c R) C H) as (A & _ & B). auto. Qed.
-Theorem default_pop_absent_raises_r c k d d0 : reachable K V keqb lower c -> cls_ok c (Some d0) -> contains c k = false ->
-  step c (OPop k d) = (c, EExn KeyError).
-Proof. intros R. apply default_pop_absent_raises. apply reachable_inv, R. Qed.
+Theorem default_get_no_insert_r c k d d0 : reachable K V keqb lower c -> cls_ok c (Some d0) -> contains c k = false ->
+  step c (OGetD k d) = (c, EOk (RVal d0)).
+Proof. intros R. apply default_get_no_insert. apply reachable_inv, R. Qed.
+Theorem setdefault_absent_inserts_r c k x dflt : reachable K V keqb lower c -> cls_ok c dflt -> contains c k = false ->
+  step c (OSetdefault k x) = (setitem c k x, EOk (RVal x)).
+Proof. intros R. apply setdefault_absent_inserts. apply reachable_inv, R. Qed.
 
-(* ------------------------------------------------------------------ the defaulting variant, all operations but lower() *)
-Lemma dstep_refines c o d0 : inv c -> cls_ok c (Some d0) -> is_lower_op K V o = false ->
-  dspec_step K V keqb lower d0 (abs c) o = (abs (fst (step c o)), snd (step c o)) /\
-  inv (fst (step c o)) /\ cls_ok (fst (step c o)) (Some d0).
+(* every reachable container has a working class/default pairing: the hypothesis cls_ok of the corollaries
+   is always satisfiable *)
+Theorem reachable_cls_ok c : reachable K V keqb lower c -> exists dflt, cls_ok c dflt.
 Proof.
-  intros I C NL.
-  assert (G : op_ok (Some d0) (abs c) o = true -> dspec_step K V keqb lower d0 (abs c) o = spec_step (Some d0) (abs c) o ->
-              dspec_step K V keqb lower d0 (abs c) o = (abs (fst (step c o)), snd (step c o)) /\
-              inv (fst (step c o)) /\ cls_ok (fst (step c o)) (Some d0)).
-  { intros OK E. rewrite E. apply step_refines; assumption. }
-  destruct o as [k v|k|k|k|k d|k d| |k d|kvs| |]; try (apply G; reflexivity); try discriminate.
-  - (* get *) destruct (shas (abs c) k) eqn:H.
-    + apply G; [exact H|]. cbn. rewrite shas_sget in H. destruct (sget (abs c) k); [reflexivity | discriminate].
-    + rewrite <- (contains_abs c k I) in H.
-      destruct (default_get_setdefault_no_insert c k d d0 I C H) as (E & _). rewrite E. cbn.
-      rewrite (contains_abs c k I), shas_sget in H. destruct (sget (abs c) k); [discriminate | auto].
-  - (* pop *) destruct (shas (abs c) k) eqn:H.
-    + assert (OK : op_ok (Some d0) (abs c) (OPop k d) = true) by (cbn; destruct d; auto).
-      apply G; [exact OK|]. cbn. rewrite shas_sget in H. destruct (sget (abs c) k); [reflexivity | discriminate].
-    + rewrite <- (contains_abs c k I) in H. rewrite (default_pop_absent_raises c k d d0 I C H). cbn.
-      rewrite (contains_abs c k I), shas_sget in H. destruct (sget (abs c) k); [discriminate | auto].
-  - (* setdefault *) destruct (shas (abs c) k) eqn:H.
-    + apply G; [exact H|]. cbn. rewrite shas_sget in H. destruct (sget (abs c) k); [reflexivity | discriminate].
-    + rewrite <- (contains_abs c k I) in H.
-      destruct (default_get_setdefault_no_insert c k None d0 I C H) as (_ & _ & E). rewrite (E d). cbn.
-      rewrite (contains_abs c k I), shas_sget in H. destruct (sget (abs c) k); [discriminate | auto].
-Qed.
-
-Theorem default_run_refines_quirks_gen d0 probes : forall ops c, inv c -> cls_ok c (Some d0) ->
-  existsb (is_lower_op K V) ops = false ->
-  run K V keqb lower probes c ops = dspec_run K V keqb lower d0 probes (abs c) ops.
-Proof.
-  induction ops as [|o r IH]; intros c I C NL; cbn [run dspec_run existsb] in *; [reflexivity|].
-  apply orb_false_iff in NL. destruct NL as [NL1 NL2].
-  destruct (dstep_refines c o d0 I C NL1) as (E & I' & C'). rewrite E.
-  destruct (step c o) as [c' x] eqn:ES. cbn [fst snd] in *.
-  rewrite (observe_abs c' (Some d0) probes I' C'), (IH c' I' C' NL2). reflexivity.
-Qed.
-Theorem default_run_refines_quirks d0 probes ops : existsb (is_lower_op K V) ops = false ->
-  run K V keqb lower probes (default_init K V (FacVal d0)) ops = dspec_run K V keqb lower d0 probes [] ops.
-Proof.
-  intros NL. apply (default_run_refines_quirks_gen d0 probes ops (default_init K V (FacVal d0))); auto.
-  - split; [reflexivity | split; constructor].
-  - reflexivity.
+  induction 1 as [cl pairs N|d0|c o R [dflt C]].
+  - exists None. destruct (update_abs pairs _ (empty_inv cl FacNone)) as (_ & _ & SK).
+    apply (cls_ok_same _ _ _ SK). unfold CIRel.cls_ok. cbn. destruct cl; congruence.
+  - exists (Some d0). reflexivity.
+  - exists dflt. apply (step_refines c o dflt (reachable_inv c R) C).
 Qed.
 
 End P.
